@@ -85,13 +85,14 @@ type Exec struct {
 	zzPath       string
 	shard        int
 	redirArgs    []Value
+	violSite     map[string]int
 	nshards      int
 }
 
 func NewExec(prog *ssa.Program, cfg Config, solverBin []string, timeoutMs int) (*Exec, error) {
 	x := &Exec{prog: prog, tc: NewTermCtx(), cfg: cfg, fninfo: map[*ssa.Function]*FnInfo{},
 		AssertSites: map[string]int{}, ReachTags: map[string]int{}, FnsEncoded: map[string]bool{},
-		StubsHit: map[string]int{}, NontrivPaths: map[string]bool{}, unsupportedSeen: map[string]int{}}
+		violSite: map[string]int{}, StubsHit: map[string]int{}, NontrivPaths: map[string]bool{}, unsupportedSeen: map[string]int{}}
 	s, err := NewSolver(x.tc, solverBin, timeoutMs)
 	if err != nil {
 		return nil, err
